@@ -76,3 +76,41 @@ Example C01_mixed_sample :
   | None => False
   end.
 Proof. vm_compute. repeat split. Qed.
+
+(* ... and over histories in which clone() is called on ANY element: a netlist (whose instances
+   reference definitions of the netlist - [ystep] gives None otherwise), a library, a definition, a
+   port, a cable, a wire, a pin or an instance. Any sequence of public editing calls (accepted or
+   refused), completed clone() calls of the eight kinds, completed uniquify runs and completed flatten
+   runs, from the empty store, leaves the whole invariant in force. The closed invariant is
+   G = Inv /\ typed containment /\ nothing above the allocation counter /\ typed fields /\ references
+   point at definitions /\ top instances are instances (Proofs/XHistAll.v over Proofs/CloneAux.v,
+   CloneAuxLib.v, CloneTq.v). *)
+From SV Require Import Proofs.CloneNetInv Proofs.XHistAll.
+Theorem C01_all_mixed_histories : forall l u f x', xrun_all l (mkX init u f) = Some x' -> Inv (st x').
+Proof. exact xrun_all_inv. Qed.
+Print Assumptions C01_all_mixed_histories.
+
+(* the histories of C01_mixed_histories are among them *)
+Theorem C01_all_mixed_histories_extend : forall l x x', xrun l x = Some x' -> xrun_all (map yop_of l) x = Some x'.
+Proof. exact xrun_all_of_xrun. Qed.
+Print Assumptions C01_all_mixed_histories_extend.
+
+(* non-vacuity: edits, Netlist.clone, Library.clone, Port.clone, two edits of the copied netlist (a wire of the copy is
+   disconnected, a cable is created in a copied definition), uniquify and flatten of the copy, a clone of the flattened
+   copy - all complete *)
+Example C01_all_mixed_sample :
+  let ops := (ONew KNetlist None nil :: OCreate RLibs 0 None nil 0 None :: OCreate RDefs 1 (Some (76%N :: nil)) nil 0 None ::
+              OCreate RPorts 2 (Some (112%N :: nil)) nil 1 None :: OCreate RDefs 1 (Some (77%N :: nil)) nil 0 None ::
+              OCreate RChildren 5 (Some (105%N :: nil)) nil 0 (Some 2) :: OCreate RCables 5 (Some (99%N :: nil)) nil 1 None ::
+              OConnect 8 (POut 6 4) None :: OCreate RDefs 1 (Some (84%N :: nil)) nil 0 None ::
+              OCreate RChildren 9 (Some (97%N :: nil)) nil 0 (Some 5) :: OCreate RChildren 9 (Some (98%N :: nil)) nil 0 (Some 5) ::
+              OSetTop 0 (TopDef 9) :: nil) in
+  let h := (map YEdit ops ++ YClone 0 :: YClone 1 :: YClone 3 :: YEdit (ODisconnect 20 (POut 21 17)) ::
+            YEdit (OCreate RCables 18 (Some (100%N :: nil)) nil 1 None) :: YUniquify 20 13 :: YFlatten 50 13 :: YClone 13 :: nil)%list in
+  match xrun_all h (mkX init 0 0) with
+  | Some x => next (st x) = 66 /\ kids (st x) RLibs 13 = (14 :: nil) /\ kids (st x) RDefs 14 = (15 :: 18 :: 41 :: 22 :: nil) /\
+              kids (st x) RChildren 22 = (46 :: 21 :: nil) /\ top (st x) 13 = Some 25 /\ kids (st x) RDefs 26 = (27 :: 30 :: 34 :: nil) /\
+              kind_of (st x) 37 = Some KPort /\ kids (st x) RPins 37 = (38 :: nil) /\ wpins (st x) 20 = nil /\ kids (st x) RDefs 1 = (2 :: 5 :: 9 :: nil)
+  | None => False
+  end.
+Proof. vm_compute. repeat split. Qed.
